@@ -291,6 +291,14 @@ def r_iso( ctx ):
         srcs = pfind( fn, 'source = rememberable()' )
         if srcs:
             res.ok( src, srcs[0][0], '%s: source = rememberable() created per connection/iteration' % qn )
+            if qn == 'enip_srv_udp':
+                # one socket serves all UDP peers: the parse buffer must be fresh per datagram, i.e. created inside the receive loop
+                loops = [ w for w in walk_no_nested( fn ) if isinstance( w, ast.While ) ]
+                inside = loops and any( srcs[0][0] is x for x in ast.walk( loops[0] ))
+                if inside:
+                    res.ok( src, srcs[0][0], 'enip_srv_udp: the source is created inside the receive loop (per datagram, no bytes carried between peers)' )
+                else:
+                    res.bad( src, srcs[0][0], 'source = rememberable() outside the UDP receive loop', 'bytes left over from one peer\'s datagram are prepended to the next peer\'s request' )
         else:
             res.bad( src, fn, '%s source' % qn, 'each connection needs its own input source' )
         mach = [ w for w in ast.walk( fn ) if isinstance( w, ast.With ) and any( is_call_to( it.context_expr, 'parser.enip_machine' ) and dotted( it.optional_vars ) == 'machine' for it in w.items ) ]
